@@ -20,7 +20,6 @@
 //verif:bound 3 peers, 2 IPv4 addresses, caps 1..2, history 3 (4); one CONNECT per run with all stage outcomes symbolic; copy kernel: <= 2 (thorough 3) reads of <= 4 bytes with symbolic (n, err) on both sides
 //verif:stub host / connection manager / stream / scope / span / ACL are harness stub types; protobuf readers and writers, handleError / writeResponse / makeReservationMsg are hooked with symbolic outcomes; time.Now and manet.ToIP substituted at their call sites; net.IP.String injective stub in the symbolic run
 //verif:outside ASN caps (IPv6 only), voucher signing, stream deadlines actually ending a circuit, expiry GC racing with disconnect notifications
-//verif:nowitness
 package relay
 
 import (
